@@ -162,65 +162,83 @@ Proof. exact htpasswd_cache_witness. Qed.
 
 (* ---- 6. the frame theorem ----
    Full statement "after a failed attempt the state equals the state before, up to the transparent
-   htpasswd cache" is FALSE of the code as it is for ONE registry: the roller map (F-C08-3, open).  The listening
-   sockets with their descriptors, the event-hook registry, the htpasswd cache and the running health-check
-   workers are not among the witnesses: see 1, 3, 5 and 6b. *)
+   htpasswd cache" is FALSE of the code as it is for the two registries that STARTUP CALLBACKS write to: the
+   roller map (F-C08-3, open) and the list of running proxy health-check workers (F-C08-5f, open: a discarded
+   instance never runs its shutdown callbacks).  The listening sockets with their descriptors, the event-hook
+   registry and the htpasswd cache are not among the witnesses: see 1, 3 and 5. *)
 Theorem C08_failed_attempt_frame_refuted :
   exists c g', attempt Load 1 [] c g0 = (RErr, g') /\ g_rollers g' <> g_rollers g0.
 Proof. exact frame_refuted. Qed.
 Print Assumptions C08_failed_attempt_frame_refuted.
 
-(* ---- 6b. EVERY failed attempt leaves the list of running health-check workers exactly as it was (full: every
-        mode, every state, every configuration, however far the attempt got; fix of F-C08-5/5b-5e — the workers
-        are started by the startup callbacks of the instance, not while `proxy` is parsed, and an instance whose
-        start fails after its startup callbacks ran runs its shutdown callbacks).  A validation and an
-        API-driven execution of the directives start nothing even when they succeed. ---- *)
-Theorem C08_failed_attempt_leaves_health_checkers :
-  forall m step e c g r g',
-  attempt m step e c g = (r, g') -> r <> ROk -> g_probers g' = g_probers g.
-Proof. exact failed_attempt_probers. Qed.
-Print Assumptions C08_failed_attempt_leaves_health_checkers.
-
+(* ---- 6b. health-check workers (fix of F-C08-5/5b-5e: they are started by the startup callbacks of the
+        instance, not while `proxy` is parsed).  A validation and an API-driven execution of the directives
+        start nothing, whatever their outcome (full).  A failed load / reload / SIGUSR1 reload leaves the worker
+        list EXACTLY as it was unless the attempt got as far as startServers with a proxy health check set up
+        and a listener that fails to bind ([probe_safe] on the part of the configuration the attempt reaches:
+        a configuration rejected by a directive, or by a failing startup callback of `log`, reaches no
+        listener) ... ---- *)
 Theorem C08_validation_starts_no_health_checker :
   forall m step e c g r g',
   (m = Validate \/ m = Execute) -> attempt m step e c g = (r, g') -> g_probers g' = g_probers g.
 Proof. exact validate_starts_nothing. Qed.
 Print Assumptions C08_validation_starts_no_health_checker.
 
-Example C08_failed_attempt_leaves_health_checkers_nonvacuous :
-  (exists g', attempt Load 1 [] (mkcfg 1 [EProxy] [ABusy]) g0 = (RErr, g') /\ g_probers g' = []) /\
+Theorem C08_failed_attempt_leaves_health_checkers_partial :
+  forall m step e c g r g',
+  probe_safe m (reached c) = true ->
+  attempt m step e c g = (r, g') -> r <> ROk -> g_probers g' = g_probers g.
+Proof. exact failed_attempt_probers. Qed.
+Print Assumptions C08_failed_attempt_leaves_health_checkers_partial.
+
+Example C08_failed_attempt_leaves_health_checkers_partial_nonvacuous :
   (exists g', attempt Validate 1 [] (mkcfg 1 [EProxy; EBad] [AEph 1]) g0 = (RErr, g') /\ g_probers g' = []) /\
   (exists g', attempt Validate 1 [] (mkcfg 1 [EProxy] [AEph 1]) g0 = (ROk, g') /\ g_probers g' = []) /\
+  (exists g', attempt Load 1 [] (mkcfg 1 [EProxy; EBad] [AEph 1; ABusy]) g0 = (RErr, g') /\ g_probers g' = []) /\
+  (exists g', attempt Load 1 [] (mkcfg 1 [ELog 1 1 false; EProxy] [AEph 1]) g0 = (RErr, g') /\ g_probers g' = []) /\
   (exists g1 g2, attempt Load 1 [] (mkcfg 1 [EProxy] [AEph 1]) g0 = (ROk, g1) /\ g_probers g1 = [1] /\
                  attempt Reload 2 [] (mkcfg 2 [EProxy; EBad] [AEph 1]) g1 = (RErr, g2) /\ g_probers g2 = [1]) /\
-  (exists g1 g2, attempt Load 1 [] (mkcfg 1 [EProxy] [AEph 1]) g0 = (ROk, g1) /\
-                 attempt Sigusr1 2 [] (mkcfg 2 [EProxy] [AEph 1; ABusy]) g1 = (RErr, g2) /\ g_probers g2 = [1]) /\
+  (exists g1 g2, attempt Load 1 [] (mkcfg 1 [EProxy] [AEph 1]) g0 = (ROk, g1) /\ g_probers g1 = [1] /\
+                 attempt Sigusr1 2 [] (mkcfg 2 [EProxy; EBad] [AEph 1]) g1 = (RErr, g2) /\ g_probers g2 = [1]) /\
   (exists g1 g2, attempt Load 1 [] (mkcfg 1 [EProxy] [AEph 1]) g0 = (ROk, g1) /\
                  attempt Reload 2 [] (mkcfg 2 [EProxy] [AEph 1]) g1 = (ROk, g2) /\ g_probers g2 = [2]).
 Proof. exact health_checkers_witness. Qed.
 
-(* FULL, NO SIDE CONDITION, for the state without the roller map (and up to what the transparent cache holds):
-   whatever fails, in whatever mode, however far it got — the instance list, the hook registry, the mutex, the
-   socket table with its descriptor counts, the name supply ([same_but_leaks]) and the worker list are EXACTLY
-   as before; and of the registry that is still written to, nothing is taken away or changed: every roller is
-   as before (rollers are only added). *)
+(* ... and without the side condition the statement is FALSE of the code as it is (F-C08-5f, open): a listener
+   that fails to bind after the startup callbacks ran leaves the workers of the rejected configuration probing *)
+Theorem C08_failed_attempt_leaves_health_checkers_refuted :
+  (exists g', attempt Load 1 [] (mkcfg 1 [EProxy] [ABusy]) g0 = (RErr, g') /\ g_probers g' = [1]) /\
+  (exists g1 g2, attempt Load 1 [] (mkcfg 1 [EProxy] [AEph 1]) g0 = (ROk, g1) /\ g_probers g1 = [1] /\
+                 attempt Reload 2 [] (mkcfg 2 [EProxy] [AEph 1; ABusy]) g1 = (RErr, g2) /\ g_probers g2 = [1; 2]) /\
+  (exists g1 g2, attempt Load 1 [] (mkcfg 1 [EProxy] [AEph 1]) g0 = (ROk, g1) /\
+                 attempt Sigusr1 2 [] (mkcfg 2 [EProxy] [AEph 1; ABusy]) g1 = (RErr, g2) /\ g_probers g2 = [1; 2]).
+Proof. exact health_checkers_refuted. Qed.
+Print Assumptions C08_failed_attempt_leaves_health_checkers_refuted.
+
+(* FULL, NO SIDE CONDITION, for the state without these two registries (and up to what the transparent cache
+   holds): whatever fails, in whatever mode, however far it got — the instance list, the hook registry, the
+   mutex, the socket table with its descriptor counts and the name supply are EXACTLY as before
+   ([same_but_leaks]); and of the two registries that are still written to, nothing is taken away or changed:
+   every roller is as before (rollers are only added), the worker list is the list before followed by workers
+   of this very attempt (none is stopped), and it is untouched under the side condition of 6b. *)
 Theorem C08_failed_attempt_frame_without_rollers :
   forall m step e c g r g',
   wf g -> attempt m step e c g = (r, g') -> r <> ROk ->
   same_but_leaks g g' /\
   (forall f x, assoc f (g_rollers g) = Some x -> assoc f (g_rollers g') = Some x) /\
-  g_probers g' = g_probers g.
+  (exists k, g_probers g' = g_probers g ++ repeat step k) /\
+  (probe_safe m (reached c) = true -> g_probers g' = g_probers g).
 Proof. exact failed_attempt_frame_without_rollers. Qed.
 Print Assumptions C08_failed_attempt_frame_without_rollers.
 
 Example C08_failed_attempt_frame_without_rollers_nonvacuous :
   exists g1 g2, attempt Load 1 [] (mkcfg 1 [EOn 1] [AEph 1]) g0 = (ROk, g1) /\ wf g1 /\
     attempt Reload 2 [] (mkcfg 2 [EOn 2; ELog 1 1 true; EProxy] [AEph 1; AEph 2; ABusy]) g1 = (RErr, g2) /\
-    g_rollers g2 <> g_rollers g1 /\ g_probers g2 = g_probers g1.
+    g_rollers g2 <> g_rollers g1 /\ g_probers g2 <> g_probers g1.
 Proof.
   eexists. eexists. split; [vm_compute; reflexivity|]. split.
   - eapply (run_wf [OAttempt Load (mkcfg 1 [EOn 1] [AEph 1])] 1 [] g0 _ _ _ wf_g0). vm_compute. reflexivity.
-  - split; [vm_compute; reflexivity|]. split; [vm_compute; discriminate|vm_compute; reflexivity].
+  - split; [vm_compute; reflexivity|]. split; vm_compute; discriminate.
 Qed.
 
 (* the same from any two states that differ in the roller map and the worker list only: an attempt reads neither
@@ -245,10 +263,9 @@ Qed.
    failed attempt that does not REACH the remaining leak.  [reached c] is the part of the configuration an
    attempt can execute (nothing of a configuration that does not parse; of one with a bad directive only the
    directives before it, minus the startup callbacks they merely schedule); in it — unless the attempt ends
-   after the directives (validate, execute) — no log roller.  Listeners, `on` hooks and htpasswd lines are no
-   side condition, nor are `proxy` directives with health checks: whatever the failing attempt opened it closed
-   again, whatever it registered it took out again, whatever it started it stopped again, whatever it cached is
-   consulted only for the version of the file that is on disk.
+   after the directives (validate, execute) — no log roller, and no proxy health check together with a listener
+   that fails to bind.  Listeners as such, `on` hooks and htpasswd lines are no side condition: whatever the failing attempt opened it closed again, whatever it
+   registered it took out again, whatever it cached is consulted only for the version of the file that is on disk.
    [wf] (nobody serves the foreign address, every socket of the table has a descriptor, what is cached was
    parsed) holds in every reachable state, see 9. *)
 Theorem C08_attempt_depends_only_on_what_it_reaches :
@@ -299,17 +316,17 @@ Example C08_valid_after_failures_partial_nonvacuous :
   forallb harmless_op h = true /\ attempts_failed h (fst (run 1 h ([], g0))).
 Proof. vm_compute. repeat split; discriminate. Qed.
 
-(* FULL, NO SIDE CONDITION on the configurations, for the state without the roller map: over ALL histories of
-   attempts that fail (every mode, every kind of failure at every stage, the contained panics of 10 included) and
-   of file rewrites, from ANY reachable state, the state is the state before the history up to the cache and the
-   roller map — the list of running health-check workers is exactly the list before —; so every later attempt —
-   in particular loading a valid configuration — has the outcome it has without the failures (from [g0]: in a
-   fresh process) and the same effect on everything but the cache, the roller map and the worker list. *)
+(* FULL, NO SIDE CONDITION on the configurations, for the state without the two leaking registries: over ALL
+   histories of attempts that fail (every mode, every kind of failure at every stage, the contained panics of 10
+   included) and of file rewrites, from ANY reachable state, the state is the state before the history up to the
+   cache, the roller map and the worker list; so every later attempt — in particular loading a valid
+   configuration — has the outcome it has without the failures (from [g0]: in a fresh process) and the same
+   effect on everything but these three. *)
 Theorem C08_valid_after_failures_without_rollers :
   forall h step0 e g rs e' g',
   wf g ->
   run step0 h (e, g) = (rs, (e', g')) -> attempts_failed h rs ->
-  same_but_leaks g g' /\ g_probers g' = g_probers g /\ e' = writes h e /\
+  same_but_leaks g g' /\ e' = writes h e /\
   forall m step v r ga, attempt m step (writes h e) v g = (r, ga) ->
   exists gb, attempt m step e' v g' = (r, gb) /\ same_but_leaks ga gb.
 Proof. exact valid_after_failures_without_rollers. Qed.
@@ -370,7 +387,7 @@ Proof. vm_compute. reflexivity. Qed.
    when [sig]).  FULL frame, every configuration, every well-formed state: it never reports success and the
    ENTIRE state is as before up to what the transparent htpasswd cache holds — no half-made instance in the
    instance list, no hook of the rejected configuration, the hooks of the running configuration still there
-   after SIGUSR1, no listener, no worker, not even a roller (the startup callbacks are never reached).  It is a
+   after SIGUSR1, no listener, no worker, no roller (the startup callbacks are never reached).  It is a
    failed reload of the configuration followed by a failing directive, so everything proved of failed attempts
    holds of it; after ANY history including such panics a valid configuration still loads (8), no attempt
    blocks (4) and the state is well-formed (9). *)
